@@ -328,7 +328,11 @@ func (cw *convWorld) staleCause(s *subscriber, id string, all []hop) string {
 		return ""
 	}
 	if res := cw.r.apply(wop{Kind: opGet, ID: id}); res.Found {
-		return ""
+		// still stored: only the same thing if it is gone from this subscriber's filtered collection (the REMOVE that was
+		// cancelled against the duplicate ADD is then the one the include filter makes out of an update)
+		if s.cfg.Include == nil || s.cfg.Include.eval(id, false, res.Msg.V) {
+			return ""
+		}
 	}
 	gates := cw.w.Gates()
 	snap, reg := int64(-1), int64(-1)
